@@ -245,6 +245,7 @@ type genOpts struct {
 	Budget     int  // field selections
 	NoMutation bool // (the apifu Config of the execute path has no Mutation type)
 	SmallOnly  bool // small values only
+	NoNulls    bool // never spell an argument as null / valueless variable
 	AllowOdd   bool // negative resolver costs / diamonds (outside the property's quantifier or the validator's tolerance)
 }
 
@@ -256,6 +257,7 @@ type generator struct {
 	budget  int
 	closure map[string]map[string]bool // fragment → fragments merged into the scope that spreads it
 	fragIdx map[string]int
+	nulls    int
 	plan     map[string]string // variable → "type:value" it stands for
 	values   map[string]VarVal // the request's variable map
 	varOrder []string
@@ -263,7 +265,28 @@ type generator struct {
 
 func (g *generator) alias() string { g.aliasN++; return "a" + strconv.Itoa(g.aliasN) }
 
+// nullishArg spells an argument as an explicit null literal, a null-valued variable, or a variable
+// that gets no value at all (then the argument counts as omitted: its default applies).
+func (g *generator) nullishArg(name, typ string) GArg {
+	if g.r.Intn(3) == 0 {
+		g.nulls++
+		return GArg{Name: name, Lit: "null"}
+	}
+	v := "v" + strconv.Itoa(len(g.doc.Vars)+1)
+	g.doc.Vars[v] = &GVar{Name: v, Type: typ}
+	g.plan[v] = "nullish"
+	g.varOrder = append(g.varOrder, v)
+	if g.r.Bool() {
+		g.values[v] = VarVal{"null", ""}
+	}
+	g.nulls++
+	return GArg{Name: name, Var: v}
+}
+
 func (g *generator) bigArg(name string, val int) GArg {
+	if !g.o.NoNulls && g.r.Chance(1, 12) {
+		return g.nullishArg(name, "Big")
+	}
 	lit := strconv.Itoa(val)
 	if g.r.Chance(1, 4) {
 		return GArg{Name: name, Var: g.variable("Big", val)}
@@ -381,6 +404,13 @@ func (g *generator) field(scope string, depth int, minFrag int) *GSel {
 			n = hx.Pick(g.r, []int{0, 1, 1<<31 - 1})
 		}
 		arg := hx.Pick(g.r, []string{"first", "last"})
+		if g.r.Chance(1, 6) { // the other one as null / valueless variable: must not count
+			other := "last"
+			if arg == "last" {
+				other = "first"
+			}
+			s.Args = append(s.Args, g.nullishArg(other, "Int"))
+		}
 		if g.r.Chance(1, 4) {
 			s.Args = append(s.Args, GArg{Name: arg, Var: g.variable("Int", n)})
 		} else {
